@@ -8,7 +8,7 @@ git -C /repo worktree add --detach -q "$WT" HEAD || exit 9
 git -C "$WT" apply "$PATCH" || { echo "$TAG: PATCH DOES NOT APPLY"; exit 9; }
 line="$TAG:"
 for p in C01 C02 C03 C04 C05 C06 C07 C08 C09 C10 C11 C12 C13 C14 C15 C16 C17 C18 C19 C20; do
-  out=$(CARQSA_REPO="$WT" CARQSA_EVID="$EV" /verif/check "$p" quick 2>&1); rc=$?
+  out=$(CARQSA_REPO="$WT" CARQSA_EVID="$EV" ${VERIF_HOME:-/verif}/check "$p" quick 2>&1); rc=$?
   if [ $rc -ne 0 ]; then line="$line $p=$rc"; echo "$out" | grep -E "violated:|ANALYSIS-BROKEN property" | sed "s|$WT|/repo|g; s/^/   [$TAG $p] /" | cut -c1-400; fi
 done
 echo "$line"
